@@ -74,14 +74,14 @@ func (s *Session) Quiesce() {
 	s.ReadCheck("C03")
 	fs := s.F.VerifSnapshot()
 	live := uint64(len(s.Committed))
-	if !s.everOverflow() && fs.MetaEnd <= fs.DataEnd {
+	if !s.everOverflow() && !s.resized && fs.MetaEnd <= fs.DataEnd {
 		// page accounting: every page below the data end is free, live or meta
 		if fs.DataEnd != 2+fs.DataAvail+live+fs.MetaTotal {
 			s.fail("C11", "space", "page accounting broken: dataEnd=%d but 2+free(%d)+live(%d)+metaTotal(%d)=%d",
 				fs.DataEnd, fs.DataAvail, live, fs.MetaTotal, 2+fs.DataAvail+live+fs.MetaTotal)
 		}
 		if fs.MaxPages > 0 {
-			if fs.DataEnd > fs.MaxPages {
+			if fs.DataEnd > fs.MaxPages && !s.resized {
 				s.fail("C11", "end-beyond-max", "data end marker %d beyond max pages %d", fs.DataEnd, fs.MaxPages)
 			}
 			if ext := uint64(s.Disk.MaxExtent); ext > fs.MaxPages*fs.PageSize && !s.resized {
@@ -97,6 +97,11 @@ func (s *Session) Quiesce() {
 	}
 	if fs.SharedCount != 0 || fs.PendingSet || !fs.ReservedFree {
 		s.fail("C09", "lock-not-idle", "lock not idle between transactions: shared=%d pending=%v reservedFree=%v", fs.SharedCount, fs.PendingSet, fs.ReservedFree)
+	}
+	if !s.everOverflow() && !s.resized {
+		if live, want := LiveFromSnap(fs), s.LiveIDs(); fmt.Sprint(live) != fmt.Sprint(want) {
+			s.fail("C04", "live-set", "pages neither free nor internal are %s, the live pages are %s", runsOf(live), runsOf(want))
+		}
 	}
 	// free lists must not contain live pages or overlap (C04)
 	df, mf := RegionIDs(fs.DataFree), RegionIDs(fs.MetaFree)
@@ -130,7 +135,7 @@ func (s *Session) Quiesce() {
 }
 
 // CompareSnap compares the fields that must survive a reopen.
-func CompareSnap(a, b txfile.VerifSnap) string {
+func CompareSnap(a, b txfile.VerifSnap, stats ...bool) string {
 	var diffs []string
 	chk := func(name string, x, y interface{}) {
 		if !reflect.DeepEqual(x, y) {
@@ -150,9 +155,11 @@ func CompareSnap(a, b txfile.VerifSnap) string {
 	chk("maxPages", a.MaxPages, b.MaxPages)
 	chk("root", a.Meta[a.MetaActive].Root, b.Meta[b.MetaActive].Root)
 	chk("txid", a.Meta[a.MetaActive].Txid, b.Meta[b.MetaActive].Txid)
-	chk("stats.data", a.Stats.DataAllocated, b.Stats.DataAllocated)
-	chk("stats.meta", a.Stats.MetaArea, b.Stats.MetaArea)
-	chk("stats.metaalloc", a.Stats.MetaAllocated, b.Stats.MetaAllocated)
+	if len(stats) == 0 || stats[0] {
+		chk("stats.data", a.Stats.DataAllocated, b.Stats.DataAllocated)
+		chk("stats.meta", a.Stats.MetaArea, b.Stats.MetaArea)
+		chk("stats.metaalloc", a.Stats.MetaAllocated, b.Stats.MetaAllocated)
+	}
 	return strings.Join(diffs, "; ")
 }
 
@@ -164,7 +171,7 @@ func (s *Session) ReopenCheck() {
 		return
 	}
 	after := s.F.VerifSnapshot()
-	if d := CompareSnap(before, after); d != "" {
+	if d := CompareSnap(before, after, !s.resized && !s.everOverflow()); d != "" {
 		s.fail("C10", "reopen-state", "state differs after reopen: %s", d)
 	}
 	s.ReadCheck("C10")
